@@ -245,11 +245,10 @@ func checkC13(c *Ctx) {
 	if peek != nil && yieldF != nil && errF != nil && typF != nil && tokenEnd >= 0 && moreVar != nil {
 		// the routines confirmed by reading, plus every other parser routine that peeks the lexer directly:
 		// each of them must run the more-input protocol itself
-		names := []string{"Parser.ParseList", "Parser.ParseArray", "Parser.ParseInfix", "Parser.ParseBlockComment", "Parser.ParseBacktickString", "Parser.ParserPeekNextToken"}
+		// (derived, not listed: a routine that hands the waiting to a helper no longer peeks itself, and the
+		// helper, which does, is examined in its place)
+		names := []string{}
 		have := map[string]bool{}
-		for _, n := range names {
-			have[n] = true
-		}
 		// a direct peek taken only when the nesting depth is 0 needs no protocol: nothing is open there,
 		// and the end of the text after a complete top-level token is a legitimate end
 		atDepthZero := func(g *ssa.Function, site ssa.CallInstruction) bool {
@@ -281,6 +280,9 @@ func checkC13(c *Ctx) {
 				names = append(names, fnName(g))
 				have[fnName(g)] = true
 			}
+		}
+		if len(names) < 4 {
+			c.undecided("C13-YIELD", "Parser", "routines that peek the lexer inside an open construct", token.NoPos, fmt.Sprintf("only %d found (%s); six confirmed by reading", len(names), strings.Join(names, ", ")))
 		}
 		for _, name := range names {
 			f := c.mustFn("C13-YIELD", name)
